@@ -19,15 +19,20 @@ type Fact struct {
 
 // normCond decomposes a branch condition taken with polarity pol into atomic facts.
 // !x flips; x != y becomes (x==y, !pol); >,>=,<= are rewritten to < atoms.
-func (k *keyer) normCond(v ssa.Value, pol bool) []Fact {
+func (k *keyer) normCond(v ssa.Value, pol bool) []Fact { return k.normCondD(v, pol, 0) }
+
+func (k *keyer) normCondD(v ssa.Value, pol bool, depth int) []Fact {
+	if depth > 24 { // cyclic boolean phis (a flag carried around a loop): stay atomic
+		return []Fact{{Key: k.key(v), Pol: pol, V: v}}
+	}
 	switch x := v.(type) {
 	case *ssa.UnOp:
 		if x.Op == token.NOT {
-			return k.normCond(x.X, !pol)
+			return k.normCondD(x.X, !pol, depth+1)
 		}
 		if x.Op == token.MUL && k.fwd != nil {
 			if sv := k.fwd.forward(x); sv != nil {
-				return k.normCond(sv, pol)
+				return k.normCondD(sv, pol, depth+1)
 			}
 		}
 	case *ssa.BinOp:
@@ -63,8 +68,8 @@ func (k *keyer) normCond(v ssa.Value, pol bool) []Fact {
 		}
 		if len(rest) == 1 && len(x.Edges) > 1 {
 			out := []Fact{{Key: k.key(v), Pol: pol, V: v}}
-			if _, isConst := constBool(rest[0]); !isConst {
-				out = append(out, k.normCond(rest[0], pol)...)
+			if _, isConst := constBool(rest[0]); !isConst && rest[0] != v {
+				out = append(out, k.normCondD(rest[0], pol, depth+1)...)
 			}
 			return out
 		}
